@@ -379,6 +379,55 @@ func runC02(c *core.Ctx) {
 
 	c.Clause("D4", func() { runReadPathStructure(c) })
 
+	c.Clause("D5", func() {
+		// Who may hand out a cache entry's own value slice: readers sort, deduplicate and filter what they are
+		// given in place, and writers append into its spare capacity, so a function of the cache that returns
+		// entry.values itself (instead of a copy) lets one reader's view change under another. Frozen table.
+		allowed := map[string]string{
+			tsm1 + ".(*Cache).values": "only the cache key iterator of the compactor calls it, on a snapshot that is no longer written (who-may-call below)",
+		}
+		valuesF := c.P.LookupField(tsm1, "entry", "values")
+		c.Need(valuesF != nil, "field entry.values")
+		n := 0
+		for _, g := range c.P.FuncsIn(tsm1) {
+			if g.Body == nil || g.Lit != nil || g.NumResults() == 0 {
+				continue
+			}
+			info := g.Info()
+			for _, e := range g.Graph().Events {
+				if e.Kind != core.EvReturn {
+					continue
+				}
+				for i := 0; i < g.NumResults(); i++ {
+					x, _ := g.ResultExpr(e, i)
+					if x == nil {
+						continue
+					}
+					x = derefLocal(g, ast.Unparen(x))
+					if sl, ok := ast.Unparen(x).(*ast.SliceExpr); ok {
+						x = sl.X
+					}
+					se, ok := ast.Unparen(x).(*ast.SelectorExpr)
+					if !ok || info.ObjectOf(se.Sel) != types.Object(valuesF) {
+						continue
+					}
+					n++
+					why, okSite := allowed[g.Root().Name]
+					c.Check("who-may-hand-out-entry-storage", fmt.Sprintf("%s/return-entry.values", g.Root().Name), c.P.Pos(e.Pos()), okSite,
+						map[bool]string{true: why, false: "the function returns a cache entry's own value slice: a reader that deduplicates, filters or merges its result in place (Cache.Values' callers, IteratorCost) changes what other readers and the next snapshot see, and a writer appending into the slice's spare capacity changes an open reader's values"}[okSite])
+				}
+			}
+		}
+		c.Floor("functions returning entry.values itself", n, 1)
+		sites := callSites(c.P, []string{tsm1}, tsm1+".(*Cache).values")
+		for i, st := range sites {
+			ok := strings.HasPrefix(st.Fn.Root().Name, tsm1+".(*cacheKeyIterator)")
+			c.Check("who-may-hand-out-entry-storage", fmt.Sprintf("%s/calls-Cache.values#%d", st.Fn.Root().Name, i+1), c.P.Pos(st.Ev.Pos()), ok,
+				"Cache.values (no copy) may only be used by the compactor's cache key iterator")
+		}
+		c.Floor("callers of Cache.values", len(sites), 1)
+	})
+
 	c.Clause("D3", func() {
 		check := func(fn string, wantCases []string, kind string) {
 			f := c.Fn(fn)
